@@ -2,6 +2,8 @@ package gen
 
 import (
 	"math"
+	"math/big"
+	"strings"
 	"regexp"
 	"strconv"
 )
@@ -19,7 +21,7 @@ func (g *G) Leaf() *DNode {
 	case 3, 4, 5, 6:
 		if g.chance("extreme", 4) {
 			// numbers only json.Number can hold, and integers beyond 2^53
-			return NumText([]string{"1e999", "-1e999", "1e-999", "123456789012345678901234567890", "9007199254740993"}[g.intn("extremev", 5)])
+			return NumText([]string{"1e999", "-1e999", "1e-999", "123456789012345678901234567890", "9007199254740993", "9007199254740992", "-0"}[g.intn("extremev", 7)])
 		}
 		return Num(numPool[g.intn("numv", len(numPool))])
 	case 7, 8, 9:
@@ -377,6 +379,14 @@ func (g *G) litLeaf(op string, lit *Operand) *DNode {
 	eq := func() *DNode {
 		switch lit.LK {
 		case LNum:
+			if n, ok := new(big.Int).SetString(strings.TrimPrefix(lit.Num, "+"), 10); ok && g.chance("inttext", 50) {
+				// an integer literal meets the same integer written as an integer (not in the float
+				// spelling); beyond 2^53 also its neighbours, which may be the same float64
+				if len(n.String()) >= 16 {
+					n.Add(n, big.NewInt(int64(g.intn("intneighbour", 3)-1)))
+				}
+				return NumText(n.String())
+			}
 			f, _ := strconv.ParseFloat(lit.Num, 64)
 			return Num(f)
 		case LStr:
